@@ -5,6 +5,12 @@ from ..gen import pools
 from ..gen.tape import Tape, tapes
 from .c12 import walk
 
+import re
+
+# the side conditions are those of the statement: a '[[', a later '|' and a later ']]' (anywhere, even across lines: conservative);
+# two '$' (one alone cannot delimit anything)
+_WIKI = re.compile(r'\[\[.*?\|.*?\]\]', re.S)
+
 CONTRIB = ['Toc', 'GithubWiki', 'MathJax', 'Pygments']
 
 
@@ -22,10 +28,10 @@ def html_opts(t):
 def check_case(case):
     text, name, opts = case['text'], case['renderer'], case.get('opts') or {}
     extra = case.get('extra') or {}
-    if name == 'GithubWiki' and '[[' in text:
-        return Out(skip='uses [[ extension')
-    if name == 'MathJax' and '$' in text:
-        return Out(skip='uses $ extension')
+    if name == 'GithubWiki' and _WIKI.search(text):
+        return Out(skip='uses [[..|..]] extension')
+    if name == 'MathJax' and text.count('$') >= 2:
+        return Out(skip='uses $..$ extension')
     try:
         base, doc = renderers.render('Html', opts, text)
         classes = {type(n).__name__ for n, _, _ in walk(doc)}
@@ -84,7 +90,7 @@ class C18(Prop):
     id = 'C18'
     rule = Random.rule
     assumptions = (
-        'side conditions are evaluated on the input text ([[ and $) and on the HtmlRenderer parse (code blocks)',
+        'side conditions are evaluated on the input text ([[ .. | .. ]] in this order anywhere in the text; two or more $) and on the HtmlRenderer parse (code blocks)',
         'inputs on which HtmlRenderer itself raises are skipped here (C01 reports them)',
     )
 
